@@ -42,6 +42,9 @@ type DenseInt8Matrix struct {
 /* constructors
  * -------------------------------------------------------------------------- */
 func NewDenseInt8Matrix(values []int8, rows, cols int) *DenseInt8Matrix {
+  if rows < 0 || cols < 0 || len(values) != rows*cols {
+    panic("NewMatrix(): Matrix dimension does not fit input values!")
+  }
   m := DenseInt8Matrix{}
   m.values = values
   m.rows = rows
